@@ -96,3 +96,127 @@ Proof.
   destruct E as [argv int_of now fs sd pj gr]. destruct o as [r s l lim sb sc d m].
   repeat (cbv -[str_eqb str_app cfg_lookup boolean_of]; first [reflexivity | discriminate | case_scrut]).
 Qed.
+
+(* ---------------------------------------------------------------- the theorems of CliModelProofs over the translated main *)
+
+Notation run_py_main E := (run_main (py_main E) world0).
+
+Theorem source_load_uses_saved : forall E o c rule sb sc e log,
+  m_parse (e_int_of E) (e_argv E) = Some (true, o) -> resumes o = true ->
+  m_load_save (e_fs E (save_name E o)) = LOk c rule sb sc ->
+  run_py_main E = (e, log) ->
+  exists g rest, log = EGrammar g :: rest /\ no_grammar rest /\
+    gc_rule_name g = VStr rule /\ gc_skip_brute g = VBool sb /\ gc_skip_case g = VBool sc /\
+    gc_base_directory g = VStr (e_pjoin E [e_script_dir E; lit "Rules"; rule]) /\
+    gc_save_file g = VStr (save_name E o).
+Proof. intros E o c rule sb sc e log Hp Hr Hl H. rewrite main_eq in H. eapply main_load_uses_saved; eauto. Qed.
+
+Theorem source_load_failure : forall E o,
+  m_parse (e_int_of E) (e_argv E) = Some (true, o) -> resumes o = true ->
+  match m_load_save (e_fs E (save_name E o)) with
+  | LFail => run_py_main E = (MDone, [])
+  | LCrash e => run_py_main E = (MRaise e, [])
+  | LOk _ _ _ _ => True
+  end.
+Proof. intros E o Hp Hr. rewrite main_eq. apply main_load_failure; auto. Qed.
+
+Theorem source_uses_typed : forall E o e log,
+  m_parse (e_int_of E) (e_argv E) = Some (true, o) -> resumes o = false ->
+  run_py_main E = (e, log) ->
+  exists g rest, log = EGrammar g :: rest /\ no_grammar rest /\
+    gc_rule_name g = VStr (o_rule o) /\ gc_skip_brute g = VBool (o_skip_brute o) /\
+    gc_skip_case g = VBool (o_skip_case o) /\ gc_debug g = VBool (o_debug o) /\
+    gc_save_file g = VStr (save_name E o).
+Proof. intros E o e log Hp Hr H. rewrite main_eq in H. eapply main_uses_typed; eauto. Qed.
+
+Theorem source_session_arguments : forall E o e log,
+  m_parse (e_int_of E) (e_argv E) = Some (true, o) -> run_py_main E = (e, log) ->
+  Forall (fun ev => match ev with
+                    | ECrackRun s ld lim =>
+                      ld = VBool (o_load o) /\ lim = v_limit (o_limit o) /\
+                      cs_save_filename s = VStr (save_name E o) /\ In (EGrammar (g_call (cs_pcfg s))) log
+                    | EHoneyRun s lim =>
+                      lim = v_limit (o_limit o) /\ hs_mode s = VStr (o_mode o) /\ In (EGrammar (g_call (hs_pcfg s))) log
+                    | _ => True
+                    end) log.
+Proof. intros E o e log Hp H. rewrite main_eq in H. eapply main_session_arguments; eauto. Qed.
+
+Theorem source_refused : forall E,
+  match m_parse (e_int_of E) (e_argv E) with
+  | None => run_py_main E = (MRaise SystemExit, [])
+  | Some (false, _) => run_py_main E = (MDone, [])
+  | Some (true, _) => True
+  end.
+Proof. intros E. rewrite main_eq. apply main_refused. Qed.
+
+Theorem source_no_stdout : forall E, ~ In EStdout (snd (run_py_main E)).
+Proof. intros E. rewrite main_eq. apply main_no_stdout. Qed.
+
+Theorem source_uuid : forall E o c rule sb sc e log u,
+  m_parse (e_int_of E) (e_argv E) = Some (true, o) -> resumes o = true ->
+  m_load_save (e_fs E (save_name E o)) = LOk c rule sb sc ->
+  cfg_lookup k_rule_info (lit "uuid") c = Some u ->
+  run_py_main E = (e, log) ->
+  exists g, log = EGrammar g :: match e_grammar E g with
+                               | None => []
+                               | Some u' =>
+                                 if py_eqb (VStr u) u' then
+                                   [ECrackRun {| cs_pcfg := {| g_call := g; g_uuid := u' |}; cs_save_config := VCfg c;
+                                                 cs_save_filename := VStr (save_name E o) |} (VBool true) (v_limit (o_limit o))]
+                                 else []
+                               end.
+Proof. intros E o c rule sb sc e log u Hp Hr Hl Hu H. rewrite main_eq in H. eapply main_uuid; eauto. Qed.
+
+(* (2) round trip over the translated functions: what create_save_config builds, completed by main's
+   uuid, the session's last_updated and anything under guessing_info, is loaded by load_save with
+   exactly the saved rule name and flags, into whatever program_info the resuming run has *)
+Theorem source_save_load_round_trip : forall E w rule sb sc,
+  d_get (lit "rule_name") (w_pi w) = Some (VStr rule) ->
+  d_get (lit "skip_brute") (w_pi w) = Some (VBool sb) ->
+  d_get (lit "skip_case") (w_pi w) = Some (VBool sc) ->
+  exists cfg0, py_create_save_config E w = (Retn (VCfg cfg0), w) /\
+    forall E' name uuid stamp guessing w',
+      let saved := set_guessing guessing (cfg_set_in k_session_info (lit "last_updated") stamp
+                                            (cfg_set_in k_rule_info (lit "uuid") uuid cfg0)) in
+      e_fs E' name = FCfg saved ->
+      py_load_save E' (VStr name) w' =
+      (Retn (VCfg saved), {| w_pi := pi_store_saved rule sb sc (w_pi w'); w_log := w_log w' |}).
+Proof.
+  intros E w rule sb sc H1 H2 H3. exists (m_create_save_config (e_now E) rule sb sc). split.
+  - apply create_save_config_eq; assumption.
+  - intros E' name uuid stamp guessing w' saved Hfs.
+    pose proof (load_save_eq E' name w') as L. rewrite Hfs in L. unfold saved in L.
+    rewrite session_file_round_trip in L. exact L.
+Qed.
+
+(* non-vacuity: `--load --skip_brute -n 5 -s s1` on a session saved with rule R, skip_brute False,
+   all_lower True: the grammar is built for R with skip_brute False, skip_case True, and the session
+   runs with load_session True and limit 5 *)
+Definition ex_saved : config :=
+  cfg_set_in k_session_info (lit "last_updated") (lit "t1")
+    (cfg_set_in k_rule_info (lit "uuid") (lit "u-1") (m_create_save_config (lit "t0") (lit "R") false true)).
+Definition ex_env : env :=
+  {| e_argv := [lit "--load"; lit "--skip_brute"; lit "-n"; lit "5"; lit "-s"; lit "s1"];
+     e_int_of := int_ascii; e_now := lit "t2";
+     e_fs := fun n => if str_eqb n (lit "/x/s1.sav") then FCfg ex_saved else FMissing;
+     e_script_dir := lit "/x";
+     e_pjoin := fun l => match l with a :: r => fold_left (fun acc b => acc ++ lit "/" ++ b) r a | [] => [] end;
+     e_grammar := fun _ => Some (VStr (lit "u-1")) |}.
+
+Example ex_resume_run :
+  run_py_main ex_env =
+  (MDone,
+   let g := {| gc_rule_name := VStr (lit "R"); gc_base_directory := VStr (lit "/x/Rules/R"); gc_version := gen_version;
+               gc_save_file := VStr (lit "/x/s1.sav"); gc_skip_brute := VBool false; gc_skip_case := VBool true;
+               gc_debug := VBool false |} in
+   [EGrammar g;
+    ECrackRun {| cs_pcfg := {| g_call := g; g_uuid := VStr (lit "u-1") |}; cs_save_config := VCfg ex_saved;
+                 cs_save_filename := VStr (lit "/x/s1.sav") |} (VBool true) (VInt 5)]).
+Proof. vm_compute. reflexivity. Qed.
+
+Example ex_hypotheses :
+  m_parse (e_int_of ex_env) (e_argv ex_env) =
+    Some (true, {| o_rule := lit "Default"; o_session := lit "s1"; o_load := true; o_limit := Some 5%Z;
+                   o_skip_brute := true; o_skip_case := false; o_debug := false; o_mode := mode_tpo |}) /\
+  m_load_save (e_fs ex_env (lit "/x/s1.sav")) = LOk ex_saved (lit "R") false true.
+Proof. split; vm_compute; reflexivity. Qed.
